@@ -127,9 +127,6 @@ func VH_C02_ScannerChunks() {
 
 // ---- ReadFull sites: upload stream header + data through receiveFile ---------------------------------------------
 
-type vBufW struct{ b []byte }
-
-func (w *vBufW) Write(p []byte) (int, error) { w.b = append(w.b, p...); return len(p), nil }
 
 func c02UploadStream(name, data []byte) []byte {
 	s := []byte{'F', 'I', 'L', 'P', 0, 1}
@@ -161,4 +158,30 @@ func VH_C02_UploadStreamChunks() {
 	vAssertEqBytes("upload_same_data", fa.b, fb.b)
 	vAssertEqBytes("upload_data_exact", fb.b, data)
 	vAssertEqBytes("upload_same_info", ia.b, ib.b)
+}
+
+// Upload with a resource fork (fork count 3): data fork, then a 16-byte MACR header and the resource bytes.
+func c02UploadStream3(name, data, rsrc []byte) []byte {
+	s := c02UploadStream(name, data)
+	s[23] = 3 // fork count
+	s = append(s, 'M', 'A', 'C', 'R', 0, 0, 0, 0, 0, 0, 0, 0)
+	s = append(s, refU32(len(rsrc))...)
+	s = append(s, rsrc...)
+	return s
+}
+
+func VH_C02_UploadStreamWithResourceFork() {
+	name := vBytesN("name", 2)
+	data := vBytesN("data", 3)
+	rsrc := vBytesN("rsrc", 2)
+	stream := c02UploadStream3(name, data, rsrc)
+	var fa, fb, ia, ib, ra, rb, ca, cb vBufW
+	errA := receiveFile(&vChunkReader{data: stream, cuts: 2}, &fa, &ra, &ia, &ca)
+	errB := receiveFile(&vChunkReader{data: stream, whole: true}, &fb, &rb, &ib, &cb)
+	vAssert("upload3_chunked_ok", errA == nil)
+	vAssert("upload3_whole_ok", errB == nil)
+	vAssertEqBytes("upload3_data_exact_chunked", fa.b, data)
+	vAssertEqBytes("upload3_data_exact_whole", fb.b, data)
+	vAssertEqBytes("upload3_rsrc_exact_chunked", ra.b, rsrc)
+	vAssertEqBytes("upload3_rsrc_exact_whole", rb.b, rsrc)
 }
